@@ -177,6 +177,34 @@ func checkOne(c *mon.Case, s pad.Scheme, bs int, m []byte, capMode string) {
 		c.Fail("mismatch", "Unpad modified its input")
 	}
 	c.Event("roundtrips", 1)
+	// The results belong to the caller: a caller that goes on to encrypt the padded buffer in place, or wipes it,
+	// must not disturb later calls. Both returned slices are overwritten over their whole capacity (the slice
+	// returned by Unpad may share memory with its input, which is the caller's as well) and the scheme object -
+	// and a second, fresh one of the same parameters - must pad the same message to the same bytes again.
+	for _, b := range [][]byte{got[:cap(got)], u[:cap(u)], in} {
+		for i := range b {
+			b[i] ^= 0x5C
+		}
+	}
+	copy(buf, m)
+	for i := len(m); i < len(buf); i++ {
+		buf[i] = fence
+	}
+	for k, q := range []padding.Padding{p, lib(s, bs)} {
+		var again []byte
+		src2 := append(make([]byte, 0, len(m)), m...) // exact capacity: the scheme has to allocate
+		if k == 1 {
+			src2 = src // and once more in the capacity mode of the case
+		}
+		if !c.Call("Pad (after the caller overwrote the earlier results)", func() { again = q.Pad(src2) }) {
+			return
+		}
+		if !bytes.Equal(again, want) {
+			c.Fail("mismatch", "Pad(%s, bs=%d) of the same %d-byte message after the caller overwrote the slices returned by the earlier Pad/Unpad: got %x want %x", s, bs, len(m), again, want)
+			return
+		}
+	}
+	c.Event("pad_again_after_results_overwritten", 2)
 }
 
 func grid(x *mon.Ctx) {
